@@ -49,7 +49,7 @@ class C17(RecorderProp):
             'operation content and outcome, mixed classes (one an unconfigured subclass of a configured class) with forcing in one run; '
             'storage-level sampling of the S3 cassette with a size-based calculator, ordered / random-order lookups through the same '
             'cassette between the saves (they consume nothing of the sampling stream), the size handed to the calculator against the stored size, '
-            'the cassette\'s own seeded generator in two interpreters, the second of which may also save through another sampled S3 cassette; non-trivial = a recording scope was opened; distinct = distinct canonical case')
+            'the cassette\'s own seeded generator in two interpreters, the second of which may also save through another sampled S3 cassette; operations at rate 1 that replay a recording while they are recorded (not modelled: kept); non-trivial = a recording scope was opened; distinct = distinct canonical case')
     N = {'quick': 3, 'thorough': 40}
     HIST = {'quick': 300, 'thorough': 2000}
     TIME_BUDGET = {'quick': 240, 'thorough': 3000}
@@ -89,6 +89,11 @@ class C17(RecorderProp):
             cases.append(self.s3_case(rng))
         for i in range(2 if tier == 'quick' else 8):
             cases.append(dict(self.s3_process_case(rng), neighbour=(3, 0, 1, 2)[i % 4]))
+        for i in range(12 if tier == 'quick' else 120):
+            # an operation that replays a reference recording while it is recorded: at rate 1 it is kept like any other
+            steps = [[rng.choice(['in', 'in', 'out']), rng.randint(0, 3)] for _ in range(rng.randint(0, 4))]
+            steps.insert(rng.randint(0, len(steps)), ['play', rng.choice(['known', 'known', 'unknown'])])
+            cases.append({'kind': 'playinside', 'model': False, 'steps': steps, 'end': rng.choice(['ret', 'ret', 'raise'])})
         return cases
 
     def history_group(self, rng, n):
@@ -177,6 +182,9 @@ class C17(RecorderProp):
 
     # -- S3 storage-level sampling ------------------------------------------------------------------------------
     def run_impl(self, case):
+        if case.get('kind') == 'playinside':
+            from harness.props.c05 import C05
+            return C05.run_playinside_case(self, case)
         if case.get('kind') == 's3process':
             return self.run_s3_process(case)
         if case.get('kind') != 's3sample':
@@ -239,21 +247,21 @@ class C17(RecorderProp):
         return out
 
     def model_requests(self, case):
-        if case.get('kind') == 's3process':
+        if case.get('kind') in ('s3process', 'playinside'):
             return []
         if case.get('kind') != 's3sample':
             return super(C17, self).model_requests(case)
         return [{'m': 'c17.s3', 'ratio': r, 'draw': d} for r, d in zip(case['ratios'], case['draws'])]
 
     def model_transcript(self, case, answers):
-        if case.get('kind') == 's3process':
+        if case.get('kind') in ('s3process', 'playinside'):
             return None
         if case.get('kind') != 's3sample':
             return super(C17, self).model_transcript(case, answers)
         return [{'stored': a} for a in answers]
 
     def impl_view(self, case, impl):
-        if case.get('kind') == 's3process':
+        if case.get('kind') in ('s3process', 'playinside'):
             return None
         if case.get('kind') != 's3sample':
             return super(C17, self).impl_view(case, impl)
@@ -299,6 +307,11 @@ class C17(RecorderProp):
     # -- oracle ----------------------------------------------------------------------------------------------------
     def oracle(self, case, impl):
         fails = []
+        if case.get('kind') == 'playinside':
+            if impl['log'] != ['create', 'save']:
+                return ['an operation of a class with the default parameters (sampling rate 1, nothing discarded) that replays a '
+                        'recording while it is recorded (steps %r) was not kept: the cassette saw %r' % (case['steps'], impl['log'])]
+            return []
         if case.get('kind') == 's3process':
             if 'error' in impl:
                 return ['S3 cassette in a fresh interpreter: ' + impl['error']]
@@ -363,11 +376,13 @@ class C17(RecorderProp):
         return fails
 
     def nontrivial(self, case, impl):
-        if case.get('kind') in ('s3sample', 's3process'):
+        if case.get('kind') in ('s3sample', 's3process', 'playinside'):
             return True
         return any(r.get('log') for r in impl)
 
     def features(self, case, impl):
+        if case.get('kind') == 'playinside':
+            return ['replay-inside-a-recorded-operation']
         if case.get('kind') == 's3process':
             return ['s3-own-generator-two-interpreters' + ('+neighbour-cassette' if case.get('neighbour') else '')]
         if case.get('kind') == 's3sample':
@@ -383,7 +398,7 @@ class C17(RecorderProp):
         return case
 
     def shrink(self, case):
-        if case.get('kind') in ('s3sample', 's3process') or 'row' in case:
+        if case.get('kind') in ('s3sample', 's3process', 'playinside') or 'row' in case:
             return []
         out = []
         n = len(case['runs'])
